@@ -197,6 +197,19 @@ def oracle(case, R):
         e = np.abs(out.SAM[:, j, :] @ Hs[:, j, :] - np.eye(nb)).max()
         R.metric("SAM_Hbb_identity/tol", e / tol[j])
         R.check(e <= tol[j], "SAM_times_accelerance_not_identity", f"f={freq[j]:.4g} err={e:.2e}")
+    # the free acceleration may be given as a real array (undamped or rigid source, real specification):
+    # ntfl is linear in As, so the expected answer follows from the independently computed accelerances
+    As_r = np.ascontiguousarray(As.real) + 0.0
+    if np.any(As_r):
+        out_r = frclim.ntfl(Source, Load, As_r, freq)
+        Ar = np.zeros((nb, nf), complex)
+        Fr = np.zeros((nb, nf), complex)
+        for j in range(nf):
+            Ar[:, j] = la.solve(SAM_ref[:, j, :] + LAM_ref[:, j, :], SAM_ref[:, j, :] @ As_r[:, j])
+            Fr[:, j] = LAM_ref[:, j, :] @ Ar[:, j]
+        cmp(out_r.A, Ar, "ntfl_real_As_interface_acceleration")
+        cmp(out_r.F, Fr, "ntfl_real_As_interface_force")
+        R.check(np.array_equal(As_r, As.real), "ntfl_modifies_As")
     # apparent-mass inputs (3-d arrays) give the same answer as model inputs
     out2 = frclim.ntfl(out.SAM, out.LAM, As, freq)
     R.check(np.array_equal(out2.A, out.A) and np.array_equal(out2.F, out.F), "ntfl_AM_inputs_differ")
